@@ -116,7 +116,9 @@ def Client.engStep (c : Client) (ev : Event) : Client × Out :=
 /-- `handle_incoming_operation` (engine time is 0: the simulated runs stay far from every timer) -/
 def Client.handleOp (c : Client) (op : ClientOp) : Client :=
   match op with
-  | .start => { c with stopOpts := none, desired := .connected }
+  | .start =>
+    -- close is terminal: a start processed after it does not revive the client
+    if c.desired == .shutdown then c else { c with stopOpts := none, desired := .connected }
   | .stop => ({ c with stopOpts := some false }.applyError "UserInitiatedDisconnect") |> fun c' => { c' with desired := .stopped }
   | .stopWithDisconnect d =>
     if c.eng.state == .connected then
